@@ -43,6 +43,8 @@ PROFILES = {
                       internal_row=0.15, puml_guards=True, row_budget=16),
     'frontlang2': dict(depth=(1, 1), regions=(1, 3), states_per_region=(2, 3), guard_composite=0.7, guard_none=0.15, action_max=3,
                        state_internal=0.5, sm_internal=0.0, completion=0.3, flags=0.5, internal_row=0.15, row_budget=16),
+    'copy_hist': dict(history_kinds=['shallow'], depth=(2, 2), regions=(1, 2), nevents=(3, 3), states_per_region=(2, 2), history=1.0, row_budget=8, state_internal=0.0,
+                      sm_internal=0.0, guard_none=0.6, scripts=True),
     'copy': dict(depth=(1, 3), regions=(1, 2), completion=0.3, history=0.6, pseudo=0.5, row_budget=11, state_internal=0.2, sm_internal=0.0,
                  deferral=0.4, scripts=True),
     'serial': dict(depth=(1, 3), regions=(1, 3), history=0.7, pseudo=0.3, completion=0.2, row_budget=11, state_internal=0.2, sm_internal=0.0,
@@ -208,7 +210,7 @@ class Gen:
         # make sure every non-initial state is reachable-ish: add an unguarded row into it from the initial state
         for ri_, reg in enumerate(m['regions']):
             for s in reg[1:]:
-                if not any(rw.get('tgt') == s for rw in rows) and len(rows) < MAX_ROWS:
+                if not any(rw.get('tgt') == s and rw['src'] != s for rw in rows) and len(rows) < MAX_ROWS:
                     rows.append(dict(src=reg[0], ev=r.choice(evs), tgt=s, guard=None, actions=self.actions()))
         r.shuffle(rows)
         m['table'] = rows
@@ -230,7 +232,7 @@ class Gen:
         if p['completion'] > 0:
             self.add_completion(m)
         if (level > 1 and p['history'] > 0 and r.random() < p['history']) or (level == 1 and p.get('root_history', 0) > 0 and r.random() < p['root_history']):
-            k = r.choice(['always', 'shallow', 'shallow'])
+            k = r.choice(p.get('history_kinds') or ['always', 'shallow', 'shallow'])
             if k == 'always':
                 m['history'] = 'always'
             else:
